@@ -172,7 +172,7 @@ CACHE_ASSUME = [
 PROPS = {
     "C03": {
         "module": "StrettoModel.Props.C03",
-        "oracles": [{"name": "live-sweep-race", "run": live_oracle("C03", ["async_sweep_race", "sweep_refresh_race"])}, {"name": "flavour-differential", "run": flavour_oracle_for("C03")}],
+        "oracles": [{"name": "live-sweep-race", "run": live_oracle("C03", ["async_sweep_race", "sweep_refresh_race", "async_sweep_refresh_race"])}, {"name": "flavour-differential", "run": flavour_oracle_for("C03")}],
             "jobs": [acache_job(r"\.(store|expiry|ret|callbacks|len)$", extra=["--w-ttl", "60"]), cache_job(r"\.(store|expiry|ret|callbacks|len)$", extra=["--w-ttl", "70"])],
         "branches": ["get.hit", "get.expired", "get.miss", "getttl.remaining", "getttl.max", "getttl.none", "insert.ttl", "insert.update",
                      "tick.reclaimed", "tick.recheck_skipped", "getmut.hit", "getmut.expired", "getttl.expired", "iip.expired"],
@@ -180,7 +180,7 @@ PROPS = {
     },
     "C05": {
         "module": "StrettoModel.Props.C05",
-        "oracles": [{"name": "live-sweep", "run": live_oracle("C05", ["async_sweep_race", "async_sweep_under_traffic", "cleanup_interval_honoured", "tiny_cleanup_interval", "sweep_refresh_race"])}, {"name": "flavour-differential", "run": flavour_oracle_for("C05")}],
+        "oracles": [{"name": "live-sweep", "run": live_oracle("C05", ["async_sweep_race", "async_sweep_under_traffic", "cleanup_interval_honoured", "tiny_cleanup_interval", "sweep_refresh_race", "async_sweep_refresh_race"])}, {"name": "flavour-differential", "run": flavour_oracle_for("C05")}],
             "jobs": [acache_job(r"\.(store|expiry|policy|callbacks|len)$", extra=["--w-ttl", "60"]), cache_job(r"\.(store|expiry|policy|callbacks|len)$", extra=["--w-ttl", "80"])],
         "branches": ["tick.reclaimed", "tick.recheck_skipped", "tick.idle", "insert.ttl", "insert.update", "remove.resident"],
         "assumptions": CACHE_ASSUME + ["the tick period (crossbeam tick / async-io Timer) is environment: ticks are placed by the schedule, with a virtual nanosecond clock",
@@ -201,7 +201,7 @@ PROPS = {
                      cache_job(r"\.(store|policy|callbacks|len|buffer)$", name="cache-plain", quick_lives=14)],
             "branches": ["padd.evicting", "padd.rejected", "padd.already_charged", "delete.resident", "delete.other_conflict", "delete.absent",
                          "tick.reclaimed", "p.clear.buf1", "remove.resident", "remove.buffer_full", "insert.split"],
-            "oracles": [{"name": "flavour-differential", "run": flavour_oracle_for("C06")}, {"name": "live-remove-full", "run": live_oracle("C06", ["remove_full", "async_remove_full", "invariants", "async_invariants", "sweep_refresh_race"])}],
+            "oracles": [{"name": "flavour-differential", "run": flavour_oracle_for("C06")}, {"name": "live-remove-full", "run": live_oracle("C06", ["remove_full", "async_remove_full", "invariants", "async_invariants", "sweep_refresh_race", "async_sweep_refresh_race"])}],
             "assumptions": CACHE_ASSUME + ["guards of the theorem checked at run time on the implementation's observations: VictimsOk (no sampled victim is the incoming key) and TickOk (conflict hashes filed in due buckets pass the store's check)"]},
     "C08": {"module": "StrettoModel.Props.C08",
             "jobs": [acache_job(r"\.(store|callbacks|buffer|ret)$"), cache_job(r"\.(store|callbacks|buffer|ret)$", extra=["--collisions", "1"]), cache_job(r"\.(store|callbacks|buffer|ret)$", name="cache-plain", extra=["--w-clear", "5"])],
@@ -223,7 +223,7 @@ PROPS = {
             "assumptions": CACHE_ASSUME + ["what the policy worker does with a kept batch is TinyLFU.increments, the subject of C13; the stepped harness parks the worker so the bounded queue does fill up"]},
     "C19": {"module": "StrettoModel.Props.C19", "jobs": [acache_job(r".*"), cache_job(r".*", quick_lives=8)],
             "oracles": [{"name": "flavour-differential", "run": flavour_oracle},
-                        {"name": "live-async", "run": live_oracle("C19", ["async_barrier", "async_remove_full", "async_invariants", "async_protocol_storm", "async_clear_burst", "async_ring_accounting", "async_sweep_race", "async_sweep_under_traffic", "async_clear_ack"])}],
+                        {"name": "live-async", "run": live_oracle("C19", ["async_barrier", "async_remove_full", "async_invariants", "async_protocol_storm", "async_clear_burst", "async_ring_accounting", "async_sweep_race", "async_sweep_under_traffic", "async_clear_ack", "async_sweep_refresh_race"])}],
             "assumptions": CACHE_ASSUME + ["AsyncCache is tied to the model by its own stepped traces (acache job: tokio current-thread runtime, composite steps a.drain / a.wait / a.clear / a.close whose unobserved sub-steps are replayed muted) and through Cache: the same scripted histories (quiescence after every operation, virtual clock, equal sketch seeds) are run against both and every observable compared; executors sampled: thread-per-task, tokio multi-thread, tokio current-thread",
                                            "the gets_kept / gets_dropped split and the queue length legitimately differ (bounded 3 vs unbounded) and are masked; their sum is compared"]},
     "C17": {"module": "StrettoModel.Props.C17", "jobs": [acache_job(r"\.(metrics|life|policy|ret)$"), cache_job(r"\.(metrics|life|policy|ret)$", extra=["--w-clear", "4"]), policy_job(r"^pol\..*(metrics|state)$"),
@@ -279,7 +279,7 @@ PROPS = {
         "module": "StrettoModel.Props.C01",
         "jobs": [policy_job(r"^pol\.(add|add\.state|remove|update|clear|maxcost|cost|cap)$"),
                  acache_job(r"\.(policy)$", quick_lives=8), cache_job(r"\.(policy)$", quick_lives=14)],
-        "oracles": [{"name": "live-invariants", "run": live_oracle("C01", ["invariants", "async_invariants", "sweep_refresh_race"])}],
+        "oracles": [{"name": "live-invariants", "run": live_oracle("C01", ["invariants", "async_invariants", "sweep_refresh_race", "async_sweep_refresh_race"])}],
         "branches": POLICY_BRANCHES,
         "assumptions": [
             "i64 costs are modelled by unbounded Int under Dom: costs >= 0 and no i64 overflow of cost + item_size or of the running sum",
